@@ -2,8 +2,8 @@
 (* Trace validation of the real client stream connection (stream.NewStreamClient over a loopback pair, id counter
    seeded next to the 32-bit wrap) against XStreamConn (C02). One event per operation of the replayed history:
      tnew{proto}                                          fresh connection (TraceReset)
-     new{w,idm,hi,wire_idm,wire_tok,tok,...}              waiter w opened a stream and sent a request carrying tok: id the stream
-                                                          reports (mod 2^16, bits above 2^32), id and token read off the wire
+     new{w,idm,wire_eq,wire_tok,tok,...}                  waiter w opened a stream and sent a request carrying tok: id the stream
+                                                          reports (mod 2^16), whether the id read off the wire equals it, token on the wire
      resp{w,...} ghost{...}                               a response frame for the id of w's latest stream / an unallocated id was dispatched
      reset{w,...}  connreset{...}                         ResetStream on w's stream / connection closed by the peer
    every event carries  delivered: [{w,tok}] OnReceive calls it caused, resets: [w] OnResetStream calls it caused,
@@ -24,18 +24,21 @@ TFresh == /\ IsEvent("tnew")
 Quiet == /\ Expect(Ev.delivered = <<>>, "spurious-delivery")
          /\ Expect(Ev.resets = <<>>, "spurious-reset")
 
-TNew == /\ IsEvent("new") /\ New(Ev.w)
-        /\ Expect(Ev.idm = IdOf(n + 1) /\ Ev.hi = 0, "id-allocation")
-        /\ Expect(Ev.wire_idm = Ev.idm, "request-stamped-with-other-id")
+(* which id a stream gets is the implementation's business; it must not be in use by a waiting stream and it must be
+   the id the request carries on the wire *)
+TNew == /\ IsEvent("new") /\ NewWith(Ev.w, Ev.idm)
+        /\ Expect(Ev.idm \notin DOMAIN table, "id-in-use-by-waiting-stream")
+        /\ Expect(Ev.wire_eq, "request-stamped-with-other-id")
         /\ Expect(Ev.wire_tok = Ev.tok, "request-content")
         /\ Quiet
         /\ Expect(S(Ev.books) = DOMAIN table', "table-differs")
         /\ tok' = [tok EXCEPT ![Ev.w] = Ev.tok]
 
-Delivery(i) == IF i \in DOMAIN table THEN {[w |-> table[i], tok |-> tok[table[i]]]} ELSE {}
+(* the response produced for w's current request goes to w if w still waits for it, otherwise to nobody *)
+Delivery(w) == IF cur[w].st = "waiting" THEN {[w |-> w, tok |-> tok[w]]} ELSE {}
 
 TResp == /\ IsEvent("resp") /\ Resp(Ev.w)
-         /\ Expect(S(Ev.delivered) = Delivery(cur[Ev.w].id) /\ Len(Ev.delivered) = Cardinality(Delivery(cur[Ev.w].id)), "response-delivery")
+         /\ Expect(S(Ev.delivered) = Delivery(Ev.w) /\ Len(Ev.delivered) = Cardinality(Delivery(Ev.w)), "response-delivery")
          /\ Expect(Ev.resets = <<>>, "spurious-reset")
          /\ Expect(S(Ev.books) = DOMAIN table', "table-differs")
          /\ UNCHANGED tok
